@@ -454,7 +454,8 @@ class Surrogates(Cached):
         for _ in range(n_iterations):
             #  Get Fourier phases of R surrogate
             r_fft = np.fft.rfft(R, axis=1)
-            r_phases = r_fft / np.abs(r_fft)
+            #  (unit modulus also where a Fourier coefficient vanishes)
+            r_phases = np.exp(1j * np.angle(r_fft))
 
             #  Transform back, replacing the actual amplitudes by the desired
             #  ones, but keeping the phases exp(iψ(i)
